@@ -116,3 +116,37 @@ package fuse
 //@   call formLookupKey#1 assert [by-parent-and-name] $id == parentInode
 //@   call Insert#3 assert [entry-by-name] as($2, FsEntry) == dirFsEntry
 //@   call append#1 assert [listed-once-with-next-offset] $1[0].Offset == len($0) + 1 && $1[0].Inode == dirFsEntry.iNode && $1[0].Type == fuseutil.DT_Directory
+
+// ---- read-only mount: tree construction (C17: "exactly the bundle's files and the directories they imply")
+// One bundle entry queues the file and every directory on its path that was not seen before, deepest
+// first; each queued node's parent is the node queued right after it, and the last one hangs under an
+// existing directory (or the root). A broken link here makes a whole sub-tree unreachable.
+// an entry record carries exactly what it is built from: path, hash, inode, size and link count
+//@ func newFsEntry
+//@   requires bundleEntry != nil
+//@   ensures [built] result != nil && result.iNode == id && result.fullPath == bundleEntry.NameWithPath && result.hash == bundleEntry.Hash && result.attributes.Nlink == linkCount && result.attributes.Size == bundleEntry.Size
+//@ func newBundleEntry
+//@   ensures [dir] result != nil && result.NameWithPath == nameWithPath && result.Hash == ""
+
+// inode numbers are handed out by one counter, strictly increasing: never the same number twice
+//@ func (*populate).WithNodesFromEntry$1
+//@   requires i != nil
+//@   ensures [next] result == old(deref(i)) + 1 && deref(i) == result
+
+//@ func (*populate).WithNodesFromEntry
+//@   requires p != nil && p.iNode != nil && p.fs != nil && p.bundle != nil && p.txns != nil
+//@   requires isvar(p.iNode) && object(p.iNode) != object(p.nodesToAdd) && object(p.iNode) != object(p)
+//@   loop 1 invariant [chain] forall j int :: old(len(p.nodesToAdd)) <= j && j + 1 < len(p.nodesToAdd) ==> p.nodesToAdd[j].parentINode == p.nodesToAdd[j+1].FsEntry.iNode
+//@   loop 1 invariant [grows] len(p.nodesToAdd) >= old(len(p.nodesToAdd))
+//@   loop 1 invariant [counter-apart] p.iNode == old(p.iNode) && object(p.iNode) != object(p.nodesToAdd) && object(p.iNode) != object(p)
+//@   ensures [chain] forall j int :: old(len(p.nodesToAdd)) <= j && j + 1 < len(p.nodesToAdd) ==> p.nodesToAdd[j].parentINode == p.nodesToAdd[j+1].FsEntry.iNode
+//@   ensures [queued] len(p.nodesToAdd) > old(len(p.nodesToAdd))
+// every queued node got a number the counter had not reached before this entry, each a different one
+//@   loop 1 invariant [counter-grows] deref(p.iNode) > old(deref(p.iNode))
+//@   loop 1 invariant [fresh-inodes] forall j int :: old(len(p.nodesToAdd)) <= j && j < len(p.nodesToAdd) ==> old(deref(p.iNode)) < p.nodesToAdd[j].FsEntry.iNode && p.nodesToAdd[j].FsEntry.iNode < deref(p.iNode)
+//@   loop 1 invariant [file-first] (len(p.nodesToAdd) == old(len(p.nodesToAdd)) ==> FsEntry.fullPath == be.NameWithPath && FsEntry.hash == be.Hash) && (len(p.nodesToAdd) > old(len(p.nodesToAdd)) ==> p.nodesToAdd[old(len(p.nodesToAdd))].FsEntry.fullPath == be.NameWithPath && p.nodesToAdd[old(len(p.nodesToAdd))].FsEntry.hash == be.Hash)
+//@   loop 1 invariant [pending-is-newest] FsEntry != nil && FsEntry.iNode == deref(p.iNode)
+//@   loop 1 invariant [increasing] forall j int :: old(len(p.nodesToAdd)) <= j && j + 1 < len(p.nodesToAdd) ==> p.nodesToAdd[j].FsEntry.iNode < p.nodesToAdd[j+1].FsEntry.iNode
+//@   ensures [fresh-inodes] forall j int :: old(len(p.nodesToAdd)) <= j && j < len(p.nodesToAdd) ==> old(deref(p.iNode)) < p.nodesToAdd[j].FsEntry.iNode && p.nodesToAdd[j].FsEntry.iNode <= deref(p.iNode)
+//@   ensures [increasing] forall j int :: old(len(p.nodesToAdd)) <= j && j + 1 < len(p.nodesToAdd) ==> p.nodesToAdd[j].FsEntry.iNode < p.nodesToAdd[j+1].FsEntry.iNode
+//@   ensures [file-first] p.nodesToAdd[old(len(p.nodesToAdd))].FsEntry.fullPath == be.NameWithPath && p.nodesToAdd[old(len(p.nodesToAdd))].FsEntry.hash == be.Hash
